@@ -134,6 +134,10 @@ def run_check(prop, tier, seed):
         inconclusive.append(f"{merged['timeouts']} case(s) hit the per-case hang watchdog")
     if merged['evaluations'] == 0:
         inconclusive.append('no executions observed')
+    ncases = sum(merged['streams'].values())
+    if ncases >= 100 and merged['nontrivial'] < 0.05 * ncases:
+        # e.g. an error inside the harness that every case swallows as 'the input was rejected': nothing was judged
+        inconclusive.append(f"only {merged['nontrivial']} of {ncases} cases reached the oracle (non-trivial cases)")
     for name in getattr(mon, 'REQUIRED_COUNTERS', []):
         if merged['counters'].get(name, 0) == 0:
             inconclusive.append(f'deciding counter {name} is 0')
